@@ -344,7 +344,10 @@ def rw_setup():
         # the field depends on the spacing only through the number of rows (as real RowWise fields do up to
         # a rigid stretch), so neighbouring target spacings share one candidate and one set of temperatures
         k = int(lot // space) + 1
-        b = lot / max(k - 1, 1)
+        # ... and, within one row count, through a coarse bucket of the spacing (0.75 m): the bisection midpoints and the two or three
+        # groups of the final double-check pass are distinct candidates with their own temperatures (with one field per row count the
+        # search left its loop after the first midpoint on every path)
+        b = lot / max(k - 1, 1) * (1.0 - 0.001 * int(space // 0.75))
         # sheared so that no two boreholes are equidistant from the first one (sorted() on (distance, row) pairs
         # would otherwise compare numpy rows and raise numpy's 'truth value is ambiguous' ValueError)
         return np.array([[i * b + 0.137 * j, j * b + 0.011 * i * i] for i in range(k) for j in range(k)])
